@@ -65,8 +65,20 @@ def gen_cases(ctx):
             if rng.random() < 0.15:
                 t["body"]["writes"] = [[rng.random() < 0.5, 3 * rng.randint(1, 30)]]
             if rng.random() < 0.1:
-                t["setUp"]["fd2"] = rng.choice(["warning: noise\n", "1 2\n", "a b c\n", "\n", "x" * 3000 + "\n"])
+                t["setUp"]["fd2"] = rng.choice(["warning: noise\n", "1 2\n", "a b c\n", "\n", "x" * 3000 + "\n",
+                                                 "caf\xe9 latin-1 noise\n", "\xff\xfe\x00 binary\n", "3 0 0 trailing words\n"])
         o = worlds.gen_opts(rng, allow=("j", "verbose", "repeat", "buffer"))
+        cases.append(cw.Case(w, o))
+    # children that write raw fd-2 noise of every kind around a bad outcome
+    for i in range(12 if ctx.quick() else 300):
+        w = worlds.gen_world(rng, n_layers=rng.choice([2, 3]), tests_per_layer=(1, 3),
+                             kinds=["pass", "pass", "fail", "error"], p_fault=0.0, p_write=0.0)
+        for t in w["tests"]:
+            if rng.random() < 0.6:
+                rng.choice([t["setUp"], t["body"], t["tearDown"]])["fd2"] = rng.choice(
+                    ["caf\xe9 latin-1 noise\n", "\xff\xfe\x00 binary\n", "3 0 0 trailing words\n", "warning\n",
+                     "2026 09 29 12:00:01 worker started\n", "\x80\n"])
+        o = {"verbose": rng.choice([0, 1, 2]), "processes": rng.choice([2, 3])}
         cases.append(cw.Case(w, o))
     # children that die
     for i in range(16 if ctx.quick() else 300):
